@@ -190,6 +190,18 @@ CLAIMED = {
         "pseudo-read bookkeeping 20 reference / 10 per alternate copy as documented",
         "DESIGN.md section 4 C16",
     ),
+    "C15": (
+        "metamorphic runtime monitor: the same qualifying evidence with and without sub-threshold observations through the real stages; qualifying support recomputed from the raw table",
+        "Evidence tables over the toy gene, generated and small shipped databases carry per-observation (mapping quality, "
+        "base quality) pairs; thresholds min_quality / min_mapq / min_coverage / threshold are drawn from their documented "
+        "ranges (usually different from each other); arbitrary observations failing exactly one or both quality thresholds "
+        "are added at reference and variant sites, including a core variant seen only in such reads. estimate_major and "
+        "estimate_minor must return identical solutions and scores for both tables; every core variant of a called allele, "
+        "every novel variant and every carried variant must have qualifying support >= min_coverage and pass the fraction "
+        "threshold as recomputed from the raw table; the allele whose core variant has no qualifying read must never be called.",
+        "qualifying-read definition and fraction rule as documented in profile.py",
+        "DESIGN.md section 4 C15",
+    ),
 }
 
 NOT_YET = {}
